@@ -13,4 +13,10 @@ pub broadcast proof fn lemma_trunc_floor_int(v: real)
         if v == ir(v.floor()) { assert(-v == ir(-(v.floor()))); assert((-v).floor() == -(v.floor())); }
     }
 }
+// sequence concatenation is associative (for the hasher's word log)
+pub broadcast proof fn lemma_hwords_assoc(a: VSeq<HWord>, b: VSeq<HWord>, c: VSeq<HWord>)
+    ensures #[trigger] ((a + b) + c) == a + (b + c)
+{
+    assert(((a + b) + c) =~= a + (b + c));
+}
 } // verus!
